@@ -1323,20 +1323,28 @@ class DocTest:
 
                         if self._partfilename is not None and self._partfilename in line:
                             # Intercept the line corresponding to the doctest
-                            tbparts = line.split(',')
-                            tb_lineno = int(tbparts[-2].strip().split()[1])
-                            # modify the line number to match the doctest
-                            linepart = tbparts[-2].split(' ')
+                            try:
+                                tbparts = line.split(',')
+                                tb_lineno = int(tbparts[-2].strip().split()[1])
+                                # modify the line number to match the doctest
+                                linepart = tbparts[-2].split(' ')
 
-                            linepart = overwrite_lineno(linepart)
+                                linepart = overwrite_lineno(linepart)
 
-                            tbparts[-2] = ' '.join(linepart)
-                            new_line = ','.join(tbparts)
+                                tbparts[-2] = ' '.join(linepart)
+                                new_line = ','.join(tbparts)
 
-                            # failed_ctx = '>>> ' + self.failed_part.exec_lines[tb_lineno - 1]
-                            failed_ctx = self.failed_part.orig_lines[tb_lineno - 1]
-                            extra = '    ' + failed_ctx
-                            line = (new_line + extra + '\n')
+                                # failed_ctx = '>>> ' + self.failed_part.exec_lines[tb_lineno - 1]
+                                failed_ctx = self.failed_part.orig_lines[tb_lineno - 1]
+                                extra = '    ' + failed_ctx
+                                line = (new_line + extra + '\n')
+                            except (IndexError, ValueError):
+                                # All parts share one filename, so this frame
+                                # may belong to code defined by an earlier
+                                # part (its line number does not index the
+                                # failing part), or the line may not be a
+                                # regular frame line. Leave it unaltered.
+                                pass
 
                         # m = '(t{})'.format(i)
                         # line = m + line.replace('\n', '\n' + m)
